@@ -12,9 +12,13 @@ import (
 	"strings"
 	"time"
 
+	"github.com/named-data/ndnd/fw/core"
+	fwmgmt "github.com/named-data/ndnd/fw/mgmt"
 	"github.com/named-data/ndnd/fw/table"
 	enc "github.com/named-data/ndnd/std/encoding"
 	"github.com/named-data/ndnd/std/ndn"
+	mgmtdef "github.com/named-data/ndnd/std/ndn/mgmt_2022"
+	"github.com/named-data/ndnd/std/utils"
 	spec "github.com/named-data/ndnd/std/ndn/spec_2022"
 	sec "github.com/named-data/ndnd/std/security"
 	"verif/mc/explore"
@@ -146,11 +150,28 @@ func newSys(names []string, cap0 int, caps []int, fresh []int, dts []int) *sys {
 	}
 	for _, k := range caps {
 		k := k
-		add(fmt.Sprintf("Cap(%d)", k), func(in *inst) []report.Violation {
-			table.SetCsCapacity(k)
-			in.cap = k
-			return nil
-		})
+		// the capacity is changed the way an operator does it: a cs/config command handed to the real
+		// management module (fw/mgmt/cs.go), with and without the optional Flags/Mask pair
+		for _, fm := range []bool{false, true} {
+			fm := fm
+			nm := fmt.Sprintf("Cap(%d)", k)
+			if fm {
+				nm = fmt.Sprintf("Cap(%d,flags+mask)", k)
+			}
+			add(nm, func(in *inst) (v []report.Violation) {
+				args := &mgmtdef.ControlArgs{Capacity: utils.IdPtr(uint64(k))}
+				if fm {
+					args.Flags, args.Mask = utils.IdPtr(uint64(0)), utils.IdPtr(uint64(0))
+				}
+				status, _ := fwmgmt.VerifCommand("cs", "config", args, 1)
+				in.cap = k
+				if status != 200 || table.CsCapacity() != k {
+					v = append(v, report.Violation{Clause: "C07.cap", Key: "cs/config command does not set the capacity",
+						Detail: fmt.Sprintf("%s through the management module answered %d and left the capacity at %d", nm, status, table.CsCapacity())})
+				}
+				return
+			})
+		}
 	}
 	for _, dt := range dts {
 		dt := dt
@@ -162,8 +183,17 @@ func newSys(names []string, cap0 int, caps []int, fresh []int, dts []int) *sys {
 	return s
 }
 
+var cfgDone bool
+
 func (s *sys) New() any {
 	vtime.Reset(false)
+	if !cfgDone {
+		cfgDone = true
+		c := core.DefaultConfig()
+		c.Core.LogLevel = "FATAL"
+		core.LoadConfig(c, "")
+		core.InitializeLogger("")
+	}
 	table.VerifConfigure(s.cap0, true, true, 6*time.Second)
 	return &inst{cs: table.NewPitCS(func(table.PitEntry) {}), ref: map[string]*refEntry{}, orders: [][]string{{}}, cap: s.cap0}
 }
